@@ -25,7 +25,7 @@ def run(chk, tier):
 
 
 def r_thread_local(chk, P, tier):
-    chk.rule("VIS.tz_info", "TZ_INFO is a thread_local RefCell used only by local::inner::offset", floor=2)
+    chk.rule("VIS.tz_info", "TZ_INFO is a thread_local RefCell used only by local::inner::offset; no process-wide state in local::inner", floor=3)
     users = []
     for name, f in P.fns.items():
         if "mir" not in f:
@@ -41,6 +41,17 @@ def r_thread_local(chk, P, tier):
                     users.append(name)
     users = sorted({u.split("::{")[0] for u in users if "TZ_INFO" not in u.split("::{")[0]})
     chk.expect(users == ["offset::local::inner::offset"], "users", "TZ_INFO is referenced from %s" % users)
+    # "immediately on a new thread": no zone state is shared between threads - nothing in offset::local::inner reaches a process-wide cell (OnceLock / Mutex / RwLock / atomics /
+    # lazy statics); the thread_local above is the only place a zone is kept
+    shared = ("std::sync::OnceLock", "std::sync::once_lock::OnceLock", "std::sync::Mutex", "std::sync::RwLock", "std::sync::LazyLock", "std::sync::atomic::", "std::sync::Once::", "std::sync::poison::")
+    users2 = {}
+    for name in P.fns:
+        if not (name.startswith("offset::local::inner::") or name.startswith("<offset::local::inner::")) or not P.has(name):
+            continue
+        for c in P.callees_of(name) if hasattr(P, "callees_of") else callees(P, name):
+            if any(k in c for k in shared):
+                users2.setdefault(name.split("::{")[0], set()).add(c.split("::")[-1])
+    chk.expect(not users2, "no process-wide zone state", "offset::local::inner uses process-wide synchronised state: %s (a zone cached there is shared by all threads: a new thread no longer sees a changed TZ at once)" % {k: sorted(v) for k, v in users2.items()})
     tz = [n for n in P.fns if n.endswith("TZ_INFO") or "TZ_INFO::" in n]
     tl = any("std::thread::LocalKey" in P.ty_s(P.fns[n]["ty"]) for n in tz if "ty" in P.fns[n])
     chk.expect(bool(tz) and tl, "thread_local", "TZ_INFO is not a std::thread::LocalKey (items %s)" % tz[:3])
@@ -200,8 +211,10 @@ def r_dispatch(chk, P, tier):
 
 
 def r_find_file(chk, P, tier):
-    chk.rule("OPEN.zoneinfo", "find_tz_file opens an absolute path as given and a relative name only under the zoneinfo directories", floor=2)
+    chk.rule("OPEN.zoneinfo", "find_tz_file opens an absolute path as given and a relative name only under the zoneinfo directories; it decides by opening, not by inspecting metadata", floor=3)
     fn = "offset::local::tz_info::timezone::find_tz_file"
+    meta = sorted(c.split("::")[-1] for c in callees(P, fn) if "std::fs::metadata" in c or "symlink_metadata" in c or "std::fs::Metadata::" in c or "::is_file" in c or "::is_symlink" in c or "read_link" in c)
+    chk.expect(not meta, "no metadata filter", "find_tz_file filters candidates through %s: a zone file reached through a symbolic link (how zoneinfo aliases and /etc/localtime are installed) must be opened like any other" % meta, loc=P.loc(fn))
     ok_abs = ok_rel = True
     n_abs = n_rel = 0
     for p in Sym(P, fn).paths(max_paths=20000):
